@@ -3,14 +3,26 @@
 Correspondence K_C05 + monitor (DESIGN.md, C05).
 
 The REAL `TransferManager` (real management BackgroundTask, real Transfer / state classes, real
-Settings, EventBus) runs on `vlib.simloop.SimLoop` against the scripted collaborators of
-`vlib/xferrig.py`.  A case is a slot setting and a list of ops, each preceded by a virtual delay:
+Settings, EventBus) and the REAL `UserManager` (real `_users` weak dictionary, real tracking manager and
+tracking tasks) run on `vlib.simloop.SimLoop` against the scripted shares / peer network of
+`vlib/xferrig.py` and the simulated server of `vlib/trackrig.py`.  What the scheduler knows about a user
+is what the real user manager holds at the instant of the decision: a status reaches it only as a real
+server message (`AddUser.Response` to the tracking request, `GetUserStatus.Response` for a watched user,
+`PrivilegedUsers.Response`) and stays only as long as the real bookkeeping keeps the user tracked; full
+garbage collections run before every management cycle and after every op.
+A case is a slot setting and a list of ops, each preceded by a virtual delay:
 
     ['addUpload', u, dt] ['addDownload', u, dt] ['started', k, dt] ['finish', k, dt] ['failX', k, dt]
     ['backToQueue', k, stage, dt] ['requeue', k, dt] ['apiQueue', k, dt] ['abort', k, dt]
-    ['setSlots', n, dt] ['setUser', u, status, friend, priv, dt] ['wait', dt]
-    ['abortRace', k, dt]     abort(k) runs as its own task while, in the same step, a status message for k's user (unchanged
-                             attributes) requests a cycle: the cycle runs while abort waits for the task it cancelled
+    ['setSlots', n, dt] ['wait', dt]
+    ['setUser', u, status, friend, priv, dt]   the friend list gains / loses u; on the SERVER u's status / privilege become
+                             these (status UNKNOWN = no such account); the server reports it (GetUserStatus) iff the
+                             client currently has u on its watch list (AddUser sent, RemoveUser not)
+    ['privList', [u..], dt]  the server sends the list of privileged users
+    ['abortRace', k, dt]     abort(k) runs as its own task while, in the same step, a message about k's user (the truth once
+                             more) requests a cycle: the cycle runs while abort waits for the task it cancelled
+  optional case key 'net': {'reply_delay': d}   the server's answer to AddUser takes d s of virtual time (None: never
+                             arrives); such cases are monitor-only (the model settles tracking within the step)
 
 Management cycles are NOT scripted: the real job decides when it runs (coalescing queue of size 1,
 0.05 s minimum interval); the harness only chooses the instants of the other events (including
@@ -45,8 +57,7 @@ def _user(u: int) -> str:
 async def _perform(rig, body: list) -> str:
     """Executes one op on the real manager. Returns 'ok' | 'refused'."""
     from aioslsk.exceptions import InvalidStateTransition
-    from aioslsk.protocol.messages import PeerTransferQueue, GetUserStatus, AddUser
-    from aioslsk.user.model import UserStatus
+    from aioslsk.protocol.messages import PeerTransferQueue
     mgr = rig.mgr
     kind = body[0]
     if kind == 'wait':
@@ -74,18 +85,15 @@ async def _perform(rig, body: list) -> str:
         return 'ok'
     if kind == 'setUser':
         _, u, status, friend, priv = body
-        user = rig.users.get_user_object(_user(u))
-        user.status = UserStatus[status]
-        user.privileged = bool(priv)
         if friend:
             rig.settings.users.friends.add(_user(u))
         else:
             rig.settings.users.friends.discard(_user(u))
-        rig.log.append(('user', _user(u), status, bool(friend), bool(priv)))
-        if status == 'UNKNOWN':
-            await mgr._on_add_user(AddUser.Response(_user(u), exists=False), None)
-        else:
-            await mgr._on_get_user_status(GetUserStatus.Response(_user(u), UserStatus[status].value, bool(priv)), None)
+        rig.log.append(('friend', _user(u), bool(friend)))
+        await rig.server.set_user(_user(u), status, bool(priv))
+        return 'ok'
+    if kind == 'privList':
+        await rig.server.privileged_list([_user(u) for u in body[1]])
         return 'ok'
     k = body[1]
     if k >= len(rig.transfers):
@@ -151,37 +159,39 @@ async def _perform(rig, body: list) -> str:
 
 async def _abort_race(rig, k: int):
     """abort(k) as its own task + a cycle request in the same step (see module doc). Logged as two model lines,
-    each where its effect happens: `setUser` now, `abort` in the step in which the call completes."""
+    each where its effect happens: the server's message now, `abort` in the step in which the call completes."""
     if k >= len(rig.transfers) or not rig.transfers[k].is_upload():
         rig.log.append(('opline', f'abort {k}', await _perform(rig, ['abort', k])))
         return
     t = rig.transfers[k]
-    u = int(t.username[len('user'):])
-    user = rig.users.get_user_object(t.username)
-    attrs = [user.status.name, t.username in rig.settings.users.friends, bool(user.privileged)]
 
     async def do_abort():
         res = await _perform(rig, ['abort', k])
         rig.log.append(('opline', f'abort {k}', res))
 
     task = asyncio.ensure_future(do_abort())
-    res = await _perform(rig, ['setUser', u] + attrs)
-    rig.log.append(('opline', _op_line(['setUser', u] + attrs), res))
+    await rig.server.nudge(t.username)           # logged as a 'told' entry where it is delivered
     await task
+
+
+def _uidx(name: str) -> int:
+    return int(name[len('user'):])
 
 
 def _snap(rig) -> str:
     _, ups = rig.mgr._get_queued_transfers()
     q = ','.join(str(rig.k_of(t)) for t in ups) or '-'
     ents = ' '.join(f'{i}:{s}' for i, s in enumerate(rig.states()))
-    return f"p={1 if rig.pending() else 0} slots={rig.mgr.get_upload_slots()} q={q} | {ents}"
+    held = sorted((_uidx(n), v) for n, v in rig.held().items() if n.startswith('user'))
+    known = ','.join(f'{u}:{st}/{int(pr)}' for u, (st, pr) in held) or '-'
+    return f"p={1 if rig.pending() else 0} slots={rig.mgr.get_upload_slots()} q={q} known={known} | {ents}"
 
 
 def _run_impl(case: dict) -> dict:
-    from vlib.xferrig import Rig
+    from vlib.trackrig import TrackedRig
 
     async def main(loop):
-        rig = Rig(loop, case['slots'])
+        rig = TrackedRig(loop, case['slots'], reply_delay=(case.get('net') or {}).get('reply_delay', 0.0))
         await rig.mgr.start()
         await simloop.settle()
         marks = []            # per entry: (log index before, log index after, snapshot)
@@ -204,8 +214,7 @@ def _run_impl(case: dict) -> dict:
         await simloop.settle()
         marks.append((mark, len(rig.log), _snap(rig)))
         final_pending = rig.pending()
-        tasks = await rig.mgr.stop()
-        await asyncio.gather(*tasks, return_exceptions=True)
+        await rig.stop()
         return {'log': [list(e) for e in rig.log], 'marks': marks, 'granularity': rig.granularity,
                 'final_pending': final_pending}
 
@@ -232,14 +241,18 @@ def _op_line(body: list) -> str:
     kind = body[0]
     if kind == 'backToQueue':
         return f'backToQueue {body[1]}'
-    if kind == 'setUser':
-        _, u, status, friend, priv = body
-        return f'setUser {u} {status} {int(bool(friend))} {int(bool(priv))}'
     return ' '.join(str(x) for x in body)
 
 
+def _seen_str(info: dict) -> str:
+    """what the scheduler read about every user with a transfer at a cycle: u:STATUS/friend/priv"""
+    ents = sorted((_uidx(n), v) for n, v in info['users'].items())
+    return ','.join(f'{u}:{st}/{int(bool(fr))}/{int(bool(pr))}' for u, (st, fr, pr) in ents) or '-'
+
+
 def _script(case: dict, impl: dict) -> tuple[list[str], list[str]]:
-    """Model input lines (after `reset`) and the implementation's observation for each line."""
+    """Model input lines (after `reset`) and the implementation's observation for each line.  Everything the
+    server told the client and every real cycle is a model line at the position where it happened."""
     lines, obs = [], []
     log = impl['log']
     for (a, b, snap) in impl['marks']:
@@ -248,13 +261,26 @@ def _script(case: dict, impl: dict) -> tuple[list[str], list[str]]:
             if e[0] == 'cycle':
                 lines.append('cycle')
                 sel = ','.join(str(k) for kind, k in e[1] if kind == 'T') or '-'
-                obs.append(f'cycle sel={sel}')
+                obs.append(f'cycle sel={sel} seen={_seen_str(e[2])}')
             elif e[0] == 'opline':
                 lines.append(e[1])
                 obs.append(f'op {e[2]}')
+            elif e[0] == 'friend':
+                lines.append(f'friend {_uidx(e[1])} {int(e[2])}')
+                obs.append('op ok')
+            elif e[0] == 'told':
+                _, kind, name, st, pr = e
+                if kind == 'status':
+                    lines.append(f'report {_uidx(name)} {st} {int(bool(pr))}')
+                else:
+                    lines.append(f'reply {_uidx(name)} {st or "NONE"}')
+                obs.append('op ok')
+            elif e[0] == 'privlist':
+                lines.append('privList ' + (','.join(str(_uidx(n)) for n in e[1]) or '-'))
+                obs.append('op ok')
             elif e[0] == 'op':
                 body = case['ops'][e[1]][:-1]
-                if body[0] == 'wait':
+                if body[0] in ('wait', 'setUser', 'privList'):       # logged by their effects
                     continue
                 lines.append(_op_line(body))
                 obs.append(f'op {e[2]}')
@@ -268,16 +294,16 @@ def _script(case: dict, impl: dict) -> tuple[list[str], list[str]]:
 def _model_obs(lines: list[str], out: list[str], obs: list[str]) -> list[str]:
     res = []
     for ln, o, want in zip(lines, out, obs):
-        # o = "<res> p=.. slots=.. sel=.. q=.. | ents"
+        # o = "<res> p=.. slots=.. sel=.. q=.. seen=.. known=.. | ents"
         head, _, ents = o.partition(' | ')
         toks = head.split()
         r = toks[0]
         kv = dict(t.split('=', 1) for t in toks[1:])
-        s = f"cycle sel={kv.get('sel')}" if ln == 'cycle' else f'op {r}'
+        s = f"cycle sel={kv.get('sel')} seen={kv.get('seen')}" if ln == 'cycle' else f'op {r}'
         if ln == 'cycle' and r != 'ok':
             s = 'cycle refused(no request pending)'
         if ' || ' in want:
-            s += f" || p={kv.get('p')} slots={kv.get('slots')} q={kv.get('q')} | {ents}"
+            s += f" || p={kv.get('p')} slots={kv.get('slots')} q={kv.get('q')} known={kv.get('known')} | {ents}"
         res.append(s)
     return res
 
@@ -286,10 +312,45 @@ def _model_obs(lines: list[str], out: list[str], obs: list[str]) -> list[str]:
 # monitor: the property statement on the implementation trace (independent of the model)
 # --------------------------------------------------------------------------------------------
 
+FINAL = ('COMPLETE', 'ABORTED', 'FAILED')
+
+
 def _klass(info: list) -> tuple:
     """privileged > friend > online/away > unknown, lexicographic"""
     status, friend, priv = info
     return (1 if priv else 0, 1 if friend else 0, 1 if status in ('ONLINE', 'AWAY') else 0)
+
+
+def _reference(log: list):
+    """For every cycle of the log: what the property's ranking / offline clause is judged against — per user with a
+    transfer `[status, friend, privileged]` where status / privileged are what the SERVER LAST REPORTED about the user
+    (AddUser answer, GetUserStatus, privileged list) since the first cycle of the user's current run of cycles with an
+    unfinished transfer; at that first cycle: what the scheduler itself read (nothing is claimed about what a client
+    knows of a user it had no transfer to do for).  friend: the friend list at the cycle.  Yields (log index, users)."""
+    ref: dict[str, list] = {}
+    for idx, e in enumerate(log):
+        tag = e[0]
+        if tag == 'told':
+            _, _kind, u, st, pr = e
+            if u in ref:
+                if st is not None:
+                    ref[u][0] = st
+                if pr is not None:
+                    ref[u][1] = bool(pr)
+        elif tag == 'privlist':
+            for u in ref:
+                ref[u][1] = u in e[1]
+        elif tag == 'cycle':
+            info = e[2]
+            seen = info['users']
+            unf = {u for _k, u, _d, st in info['xs'] if st not in FINAL}
+            for u in list(ref):
+                if u not in unf:
+                    del ref[u]
+            for u in unf:
+                if u not in ref:
+                    ref[u] = [seen[u][0], bool(seen[u][2])]
+            yield idx, {u: ([ref[u][0], bool(seen[u][1]), ref[u][1]] if u in ref else list(seen[u])) for u in seen}
 
 
 def _monitor(case: dict, impl: dict) -> list[Violation]:
@@ -306,6 +367,7 @@ def _monitor(case: dict, impl: dict) -> list[Violation]:
     last_cycle_idx = -1
     last_change_idx = -1
     last_cycle = None
+    reported = dict(_reference(impl['log']))
     for idx, e in enumerate(impl['log']):
         tag = e[0]
         if tag == 'add':
@@ -314,8 +376,8 @@ def _monitor(case: dict, impl: dict) -> list[Violation]:
             last_change_idx = idx
         elif tag == 'slots':
             slots = e[1]
-        elif tag == 'user':
-            last_change_idx = idx
+        elif tag == 'told':
+            last_change_idx = idx          # AddUser / GetUserStatus responses request a cycle (manager.py:1193-1202)
         elif tag == 'state':
             _, k, old, new = e
             if k is None:
@@ -341,11 +403,23 @@ def _monitor(case: dict, impl: dict) -> list[Violation]:
             decision_slots = info['slots']
             sel = [k for kind, k in started if kind == 'T' and is_up.get(k, True)]
             xs = {k: (u, d, st) for k, u, d, st in info['xs']}
-            users = info['users']
+            seen = info['users']
+            users = reported[idx]
             active = [k for k, (u, d, st) in xs.items() if d == 'U' and st in ('INITIALIZING', 'UPLOADING')]
             busy = {xs[k][0] for k in active}
+            # uploads an earlier decision already started whose state change is not recorded yet (task created,
+            # first step not taken): they are being served, and they will take a slot
+            inflight = [k for k in info.get('inflight', []) if k in xs and k not in sel]
+            served = busy | {xs[k][0] for k in inflight}
             free = max(0, info['slots'] - len(active))
-            where = {'log_index': idx, 'started': sel, 'before': info}
+            where = {'log_index': idx, 'started': sel, 'before': info, 'last_reported': users}
+
+            def lost(u):
+                if users[u] != list(seen[u]):
+                    return (f' (the scheduler read {seen[u][0]}/privileged={bool(seen[u][2])} for {u}; the server last '
+                            f'reported {users[u][0]}/privileged={users[u][2]})')
+                return ''
+
             if len(sel) > free:
                 add('C05-slot-limit-exceeded', f'a cycle started {len(sel)} uploads with {free} free slots '
                     f'({len(active)} active, limit {info["slots"]})', where, f'<= {free}')
@@ -361,10 +435,11 @@ def _monitor(case: dict, impl: dict) -> list[Violation]:
                 if u in busy:
                     add('C05-two-uploads-one-user', f'a cycle started upload {k} for user {u} who has an active upload', where)
                 if users[u][0] == 'OFFLINE':
-                    add('C05-offline-user-started', f'a cycle started upload {k} of offline user {u}', where, 'never')
+                    add('C05-offline-user-started', f'a cycle started upload {k} of offline user {u}' + lost(u), where,
+                        'never')
             # eligible users that were left waiting
             waiting = sorted({u for k, (u, d, st) in xs.items()
-                              if d == 'U' and st == 'QUEUED' and users[u][0] != 'OFFLINE' and u not in busy
+                              if d == 'U' and st == 'QUEUED' and users[u][0] != 'OFFLINE' and u not in served
                               and u not in sel_users})
             for k in sel:
                 if k not in xs:
@@ -374,21 +449,19 @@ def _monitor(case: dict, impl: dict) -> list[Violation]:
                     if _klass(users[w]) > _klass(users[u]):
                         add('C05-priority-inverted',
                             f'upload {k} of {u} {users[u]} was started while eligible user {w} {users[w]} of a higher '
-                            f'class was left waiting', where, 'privileged > friend > online/away > unknown')
-            if waiting and len(sel) < free:
-                add('C05-slot-left-idle', f'after a cycle {free - len(sel)} slot(s) stay free while eligible user(s) '
-                    f'{waiting} have queued uploads', where, 'work-conserving')
+                            f'class was left waiting' + lost(u) + lost(w), where,
+                            'privileged > friend > online/away > unknown')
+            if waiting and len(sel) + len(inflight) < free:
+                add('C05-slot-left-idle', f'after a cycle {free - len(sel) - len(inflight)} slot(s) stay free while '
+                    f'eligible user(s) {waiting} have queued uploads' + ''.join(lost(w) for w in waiting), where,
+                    'work-conserving')
     # every change is followed by a scheduling cycle (the queue request is served)
     if impl.get('final_pending'):
         add('C05-cycle-not-run', 'a management cycle request is still pending after 1 s of quiescence', None, 'served')
     if last_change_idx > last_cycle_idx:
         e = impl['log'][last_change_idx]
         add('C05-cycle-not-run', f'no management cycle ran after the last change {e[:4]} (1 s of quiescence)',
-            {'log_index': last_change_idx}, 'every change of a transfer / user is followed by a cycle')
-    elif last_cycle is not None:
-        # the last cycle saw the final state: it must have left nothing startable (checked above) and the state
-        # it saw must be the final one
-        pass
+            {'log_index': last_change_idx}, 'every change of a transfer / report about a user is followed by a cycle')
     if impl.get('loop_exceptions'):
         add('C05-internal-error', 'exception reported to the loop exception handler', impl['loop_exceptions'][:2])
     return vs
